@@ -13,6 +13,10 @@ pub fn main() {
         "addrsort" => crate::addrsort::run(&args),
         "eyeballs" => crate::eyeballs::run(&args),
         "poollab" => crate::lab::scenarios::run(&args),
+        "traffic" => crate::e2e::traffic::run(&args),
+        "shutdown" => crate::e2e::shutdown::run(&args),
+        "faults" => crate::e2e::faults::run(&args),
+        "tlsworld" => crate::e2e::tlsworld::run(&args),
         "layers" if args.replay.is_some() => crate::reqsweep::replay(&args, "layers"),
         "sni" if args.replay.is_some() => crate::reqsweep::replay(&args, "sni"),
         "layers" => crate::reqsweep::run_layers(&args),
